@@ -242,4 +242,15 @@ def r5_whole_writes(ctx):
         o["site"] = "sink:" + o["site"]
         o["rule"] = "R5"
 
-RULES = [("R1", r1_escaping), ("R2", r2_attr_literals), ("R3", r3_name_len), ("R4", r4_same_table), ("R5", r5_whole_writes)]
+def r6_escape_sets(ctx):
+    """the writer's escaping is escape::_escape: which bytes it selects and what it replaces them with (C10 R1
+    re-evaluated; selecting by anything but the byte itself, e.g. a truncated char, rewrites non-ASCII text)"""
+    import c10
+    n0 = len(ctx.obs)
+    c10.r1_sets(ctx)
+    for o in ctx.obs[n0:]:
+        o["site"] = "escape:" + o["site"]
+        o["rule"] = "R6"
+
+
+RULES = [("R1", r1_escaping), ("R2", r2_attr_literals), ("R3", r3_name_len), ("R4", r4_same_table), ("R5", r5_whole_writes), ("R6", r6_escape_sets)]
